@@ -160,6 +160,19 @@ Proof.
   cbn [scatter]. rewrite IH, upd_length. reflexivity.
 Qed.
 
+Lemma hp_firstn_In : forall A n (l : list A) x, In x (firstn n l) -> In x l.
+Proof.
+  intros A n l x H. rewrite <- (firstn_skipn n l). apply in_or_app. left. exact H.
+Qed.
+
+Lemma hp_firstn_min : forall A n (l : list A), firstn (Nat.min n (length l)) l = firstn n l.
+Proof.
+  intros A n l. destruct (le_lt_dec n (length l)) as [H|H].
+  - replace (Nat.min n (length l)) with n by lia. reflexivity.
+  - replace (Nat.min n (length l)) with (length l) by lia.
+    rewrite firstn_all, firstn_all2 by lia. reflexivity.
+Qed.
+
 Lemma hp_scatter_other : forall order vals acc j d,
   ~ In j (firstn (length vals) order) -> nth j (scatter order vals acc) d = nth j acc d.
 Proof.
@@ -180,7 +193,7 @@ Proof.
     cbn [scatter]. destruct i as [|i].
     + cbn [nth] in *. rewrite hp_scatter_other.
       * apply nth_upd_same. exact Ha.
-      * intros HIn. apply Hnin. eapply firstn_In. exact HIn.
+      * intros HIn. apply Hnin. eapply hp_firstn_In. exact HIn.
     + cbn [nth length] in *. apply IH; try assumption; try lia.
       rewrite upd_length. exact Ha.
 Qed.
@@ -213,15 +226,9 @@ Proof.
       rewrite (Hz j Hsk).
       rewrite hp_scatter_other.
       * apply nth_repeat.
-      * rewrite map_length. rewrite firstn_firstn.
-        intros HIn.
+      * rewrite map_length, firstn_length, hp_firstn_min.
+        intros HIn'.
         rewrite <- (firstn_skipn cs order) in Hnd.
-        apply NoDup_app_remove_l in Hnd as Hnd2.
-        assert (HIn' : In j (firstn cs order)).
-        { eapply (firstn_In). rewrite firstn_firstn. 
-          replace (Nat.min (Nat.min cs (length (firstn cs order))) cs) with (Nat.min cs (length (firstn cs order))) by lia.
-          exact HIn. }
-        clear HIn.
         revert Hnd HIn' Hsk. generalize (firstn cs order) (skipn cs order).
         intros a b Hnd Ha Hb.
         induction a as [|x a IHa]; [destruct Ha|].
@@ -229,4 +236,458 @@ Proof.
         destruct Ha as [-> | Ha].
         -- apply Hx. apply in_or_app. right. exact Hb.
         -- apply IHa; assumption.
+Qed.
+
+(* ------------------------------------------------------------------ *)
+(* 5. the "trailing run" fold of used_count and of the code size        *)
+
+Definition tzf {A} (f : A -> bool) (l : list A) : list A :=
+  fold_left (fun acc x => if f x then x :: acc else []) l [].
+
+Lemma hp_tzf_snoc : forall A (f : A -> bool) l x,
+  tzf f (l ++ [x]) = if f x then x :: tzf f l else [].
+Proof. intros. unfold tzf. rewrite fold_left_app. reflexivity. Qed.
+
+Lemma hp_skipn_In : forall A n (l : list A) x, In x (skipn n l) -> In x l.
+Proof.
+  intros A n l x H. rewrite <- (firstn_skipn n l). apply in_or_app. right. exact H.
+Qed.
+
+Lemma hp_skipn_add : forall A k a (l : list A), skipn (a + k) l = skipn a (skipn k l).
+Proof.
+  intros A. induction k as [|k IH]; intros a l.
+  - rewrite Nat.add_0_r. reflexivity.
+  - rewrite Nat.add_succ_r. destruct l as [|x r].
+    + rewrite !skipn_nil. reflexivity.
+    + cbn [skipn]. apply IH.
+Qed.
+
+Lemma hp_tzf_spec : forall A (f : A -> bool) l,
+  (length (tzf f l) <= length l)%nat /\
+  forall x, In x (skipn (length l - length (tzf f l)) l) -> f x = true.
+Proof.
+  intros A f. induction l as [|x l IH] using rev_ind.
+  - split; [cbn; lia|]. intros x H. destruct H.
+  - destruct IH as [IH1 IH2]. rewrite hp_tzf_snoc. rewrite app_length. cbn [length].
+    destruct (f x) eqn:E.
+    + cbn [length]. split; [lia|]. intros y Hy.
+      replace (length l + 1 - S (length (tzf f l)))%nat with (length l - length (tzf f l))%nat in Hy by lia.
+      rewrite skipn_app in Hy.
+      replace (length l - length (tzf f l) - length l)%nat with 0%nat in Hy by lia.
+      cbn [skipn] in Hy. apply in_app_or in Hy. destruct Hy as [Hy|Hy].
+      * apply IH2. exact Hy.
+      * destruct Hy as [<-|[]]. exact E.
+    + cbn [length]. split; [lia|]. intros y Hy.
+      rewrite skipn_all2 in Hy by (rewrite app_length; cbn [length]; lia). destruct Hy.
+Qed.
+
+Lemma hp_used_count_eq : forall l,
+  used_count l = lenN l - lenN (tzf (fun x => x =? 0) l).
+Proof. reflexivity. Qed.
+
+Lemma hp_used_count_le : forall l, (N.to_nat (used_count l) <= length l)%nat.
+Proof. intros l. rewrite hp_used_count_eq. unfold lenN. lia. Qed.
+
+Lemma hp_used_count_nz : forall l i, nthN l i <> 0 -> i < used_count l.
+Proof.
+  intros l i Hi. rewrite hp_used_count_eq.
+  destruct (hp_tzf_spec _ (fun x => x =? 0) l) as [H1 H2].
+  unfold lenN.
+  destruct (N.ltb i (N.of_nat (length l) - N.of_nat (length (tzf (fun x => x =? 0) l)))) eqn:E.
+  - apply N.ltb_lt in E. exact E.
+  - apply N.ltb_ge in E. exfalso. apply Hi. unfold nthN.
+    destruct (le_lt_dec (length l) (N.to_nat i)) as [Hl|Hl].
+    + apply nth_overflow. exact Hl.
+    + apply N.eqb_eq. apply H2.
+      set (k := (length l - length (tzf (fun x => (x =? 0)%N) l))%nat).
+      rewrite <- (firstn_skipn k l) at 1.
+      rewrite app_nth2 by (rewrite firstn_length; lia).
+      apply nth_In. rewrite firstn_length, skipn_length. lia.
+Qed.
+
+Lemma hp_codesize_bounds : forall ll dl, 4 <= h_codesize ll dl <= 19.
+Proof.
+  intros. unfold h_codesize. cbv zeta.
+  destruct (19 - lenN (h_tz (h_cllens ll dl)) <? 4) eqn:E; lia.
+Qed.
+
+Lemma hp_codesize_zero : forall ll dl s,
+  In s (skipn (N.to_nat (h_codesize ll dl)) hclen_order) -> nthN (h_cllens ll dl) s = 0.
+Proof.
+  intros ll dl s Hs.
+  destruct (hp_tzf_spec _ (fun s => nthN (h_cllens ll dl) s =? 0) hclen_order) as [H1 H2].
+  apply N.eqb_eq. apply (H2 s).
+  change (tzf (fun s0 : N => nthN (h_cllens ll dl) s0 =? 0) hclen_order) with (h_tz (h_cllens ll dl)) in *.
+  change (length hclen_order) with 19%nat in *.
+  set (k := (19 - length (h_tz (h_cllens ll dl)))%nat).
+  assert (Hk : (k <= N.to_nat (h_codesize ll dl))%nat).
+  { unfold h_codesize, lenN. cbv zeta. fold k.
+    destruct (19 - N.of_nat (length (h_tz (h_cllens ll dl))) <? 4) eqn:E; lia. }
+  replace (N.to_nat (h_codesize ll dl)) with ((N.to_nat (h_codesize ll dl) - k) + k)%nat in Hs by lia.
+  rewrite hp_skipn_add in Hs. eapply hp_skipn_In. exact Hs.
+Qed.
+
+(* ------------------------------------------------------------------ *)
+(* 6. gen_codes (writer) versus canon (specification)                   *)
+
+Lemma hp_assign_all_assign : forall l nc sym i, nth i l 0 <> 0 ->
+  fst (nth i (assign_all l nc) (0, 0)) = nth i l 0 /\
+  In ((sym + i)%nat, N.to_nat (nth i l 0), snd (nth i (assign_all l nc) (0, 0)))
+     (assign (map N.to_nat l) sym nc).
+Proof.
+  induction l as [|x r IH]; intros nc sym i Hi.
+  - destruct i; cbn [nth] in Hi; congruence.
+  - cbn [assign_all map assign].
+    destruct (x =? 0) eqn:E.
+    + apply N.eqb_eq in E. subst x. cbn [N.to_nat Nat.eqb].
+      destruct i as [|i]; [cbn [nth] in Hi; congruence|].
+      cbn [nth] in Hi |- *.
+      replace (sym + S i)%nat with (S sym + i)%nat by lia. apply IH. exact Hi.
+    + apply N.eqb_neq in E.
+      assert (E' : Nat.eqb (N.to_nat x) 0 = false) by (apply Nat.eqb_neq; lia).
+      rewrite E'. cbv zeta.
+      destruct i as [|i].
+      * cbn [nth fst snd]. split; [reflexivity|]. left.
+        replace (sym + 0)%nat with sym by lia. reflexivity.
+      * cbn [nth] in Hi |- *.
+        replace (sym + S i)%nat with (S sym + i)%nat by lia.
+        destruct (IH (updN nc x (nthN nc x + 1)) (S sym) i Hi) as [H1 H2].
+        split; [exact H1|]. right. exact H2.
+Qed.
+
+Lemma hp_code_decodes : forall lens maxl ct s rest p,
+  mktrie maxl (map N.to_nat lens) = Some ct -> nthN lens s <> 0 ->
+  decode_sym ct (mkbs (code_word (nth (N.to_nat s) (gen_codes lens) (0, 0)) ++ rest) p)
+  = DOk (N.to_nat s)
+        (mkbs rest (p + N.of_nat (length (code_word (nth (N.to_nat s) (gen_codes lens) (0, 0)))))).
+Proof.
+  intros lens maxl ct s rest p Hmk Hs.
+  unfold nthN in Hs.
+  destruct (hp_assign_all_assign lens (map (first_code (map N.to_nat lens)) (seq 0 17)) 0%nat
+              (N.to_nat s) Hs) as [H1 H2].
+  change (assign_all lens (map (first_code (map N.to_nat lens)) (seq 0 17))) with (gen_codes lens) in *.
+  change (assign (map N.to_nat lens) 0 (map (first_code (map N.to_nat lens)) (seq 0 17)))
+    with (canon (map N.to_nat lens)) in H2.
+  destruct (nth (N.to_nat s) (gen_codes lens) (0, 0)) as [len c] eqn:En.
+  cbn [fst snd] in *. unfold code_word. cbn [fst snd].
+  cbn [Nat.add] in H2. rewrite <- H1 in H2.
+  rewrite (decode_encode maxl _ ct _ _ _ rest p Hmk H2).
+  rewrite code_bits_length. reflexivity.
+Qed.
+
+(* ------------------------------------------------------------------ *)
+(* 7. items of the code-length alphabet and what read_lens does with them *)
+
+Definition item_count (it : N * N) : nat :=
+  if fst it <? 16 then 1%nat
+  else if fst it =? 18 then (11 + N.to_nat (snd it))%nat
+  else (3 + N.to_nat (snd it))%nat.
+
+Definition item_step (it : N * N) (acc : list nat) : list nat :=
+  if fst it <? 16 then N.to_nat (fst it) :: acc
+  else if fst it =? 16 then repeat (hd 0%nat acc) (item_count it) ++ acc
+  else repeat 0%nat (item_count it) ++ acc.
+
+Definition item_wf (it : N * N) (acc : list nat) : Prop :=
+  fst it <= 18 /\ (fst it = 16 -> acc <> [] /\ snd it < 4) /\
+  (fst it = 17 -> snd it < 8) /\ (fst it = 18 -> snd it < 128).
+
+Definition item_decodes (ct : trie) (clcodes : list (N * N)) (it : N * N) : Prop :=
+  forall rest p,
+    decode_sym ct (mkbs (code_word (nth (N.to_nat (fst it)) clcodes (0, 0)) ++ rest) p)
+    = DOk (N.to_nat (fst it))
+          (mkbs rest (p + N.of_nat (length (code_word (nth (N.to_nat (fst it)) clcodes (0, 0)))))).
+
+Lemma hp_item_count_pos : forall it, (1 <= item_count it)%nat.
+Proof.
+  intros it. unfold item_count.
+  destruct (fst it <? 16); [lia|]. destruct (fst it =? 18); lia.
+Qed.
+
+Lemma hp_read_lens_item : forall ct clcodes it fuel total acc rest p,
+  item_wf it acc -> item_decodes ct clcodes it -> (item_count it <= total)%nat ->
+  read_lens (S fuel) ct total acc (mkbs (item_bits clcodes it ++ rest) p)
+  = read_lens fuel ct (total - item_count it) (item_step it acc)
+              (mkbs rest (p + N.of_nat (length (item_bits clcodes it)))).
+Proof.
+  intros ct clcodes [s e] fuel total acc rest p Hwf Hdec Hc.
+  pose proof (hp_item_count_pos (s, e)) as Hpos.
+  unfold item_wf in Hwf. unfold item_decodes in Hdec.
+  unfold item_bits, item_step. unfold item_count in *. cbn [fst snd] in *.
+  destruct Hwf as [Hle [H16 [H17 H18]]].
+  destruct total as [|t]; [lia|].
+  rewrite <- app_assoc. cbn [read_lens]. rewrite Hdec.
+  set (w := code_word (nth (N.to_nat s) clcodes (0, 0))) in *.
+  assert (Hcase : s < 16 \/ s = 16 \/ s = 17 \/ s = 18) by lia.
+  destruct Hcase as [Hs | [Hs | [Hs | Hs]]].
+  - assert (E1 : (s <? 16) = true) by (apply N.ltb_lt; exact Hs).
+    assert (E2 : (16 <=? s) = false) by (apply N.leb_gt; exact Hs).
+    assert (E3 : (N.to_nat s <? 16)%nat = true) by (apply Nat.ltb_lt; lia).
+    rewrite E1 in *. rewrite E2, E3. cbn [app]. rewrite app_nil_r. reflexivity.
+  - subst s. destruct (H16 eq_refl) as [Hacc He].
+    change (16 <? 16) with false in *. change (16 =? 16) with true.
+    change (16 =? 18) with false in *. change (16 <=? 16) with true.
+    change (N.to_nat 16) with 16%nat. change (16 <? 16)%nat with false.
+    change (16 =? 16)%nat with true. cbv iota beta in Hc |- *.
+    change (N.to_nat (cl_extra_bits 16)) with 2%nat.
+    rewrite hp_take_num by (change (2 ^ N.of_nat 2) with 4; exact He).
+    destruct acc as [|a acc']; [congruence|]. cbn [hd_error hd].
+    destruct (S t <? 3 + N.to_nat e)%nat eqn:Et; [apply Nat.ltb_lt in Et; lia|].
+    rewrite app_length, bits_of_N_length. do 2 f_equal. lia.
+  - subst s. specialize (H17 eq_refl).
+    change (17 <? 16) with false in *. change (17 =? 16) with false.
+    change (17 =? 18) with false in *. change (16 <=? 17) with true.
+    change (N.to_nat 17) with 17%nat. change (17 <? 16)%nat with false.
+    change (17 =? 16)%nat with false. change (17 =? 17)%nat with true. cbv iota beta in Hc |- *.
+    change (N.to_nat (cl_extra_bits 17)) with 3%nat.
+    rewrite hp_take_num by (change (2 ^ N.of_nat 3) with 8; exact H17).
+    destruct (S t <? 3 + N.to_nat e)%nat eqn:Et; [apply Nat.ltb_lt in Et; lia|].
+    rewrite app_length, bits_of_N_length. do 2 f_equal. lia.
+  - subst s. specialize (H18 eq_refl).
+    change (18 <? 16) with false in *. change (18 =? 16) with false.
+    change (18 =? 18) with true in *. change (16 <=? 18) with true.
+    change (N.to_nat 18) with 18%nat. change (18 <? 16)%nat with false.
+    change (18 =? 16)%nat with false. change (18 =? 17)%nat with false. cbv iota beta in Hc |- *.
+    change (N.to_nat (cl_extra_bits 18)) with 7%nat.
+    rewrite hp_take_num by (change (2 ^ N.of_nat 7) with 128; exact H18).
+    destruct (S t <? 11 + N.to_nat e)%nat eqn:Et; [apply Nat.ltb_lt in Et; lia|].
+    rewrite app_length, bits_of_N_length. do 2 f_equal. lia.
+Qed.
+
+Fixpoint items_ok (items : list (N * N)) (acc : list nat) : Prop :=
+  match items with
+  | [] => True
+  | it :: r => item_wf it acc /\ items_ok r (item_step it acc)
+  end.
+
+Definition run_items (items : list (N * N)) (acc : list nat) : list nat :=
+  fold_left (fun a it => item_step it a) items acc.
+
+Fixpoint items_count (items : list (N * N)) : nat :=
+  match items with [] => 0%nat | it :: r => (item_count it + items_count r)%nat end.
+
+Lemma hp_items_ok_app : forall a b acc,
+  items_ok a acc -> items_ok b (run_items a acc) -> items_ok (a ++ b) acc.
+Proof.
+  induction a as [|it a IH]; intros b acc Ha Hb.
+  - exact Hb.
+  - cbn [app items_ok] in *. destruct Ha as [H1 H2]. split; [exact H1|].
+    apply IH; [exact H2 | exact Hb].
+Qed.
+
+Lemma hp_run_items_app : forall a b acc, run_items (a ++ b) acc = run_items b (run_items a acc).
+Proof. intros. unfold run_items. apply fold_left_app. Qed.
+
+Lemma hp_items_count_app : forall a b, items_count (a ++ b) = (items_count a + items_count b)%nat.
+Proof.
+  induction a as [|it a IH]; intros b; [reflexivity|].
+  cbn [app items_count]. rewrite IH. lia.
+Qed.
+
+Lemma hp_item_step_length : forall it acc,
+  length (item_step it acc) = (item_count it + length acc)%nat.
+Proof.
+  intros it acc. unfold item_step.
+  destruct (fst it <? 16) eqn:E1.
+  - unfold item_count. rewrite E1. reflexivity.
+  - destruct (fst it =? 16); rewrite app_length, repeat_length; reflexivity.
+Qed.
+
+Lemma hp_run_items_length : forall items acc,
+  length (run_items items acc) = (items_count items + length acc)%nat.
+Proof.
+  induction items as [|it r IH]; intros acc; [reflexivity|].
+  change (run_items (it :: r) acc) with (run_items r (item_step it acc)).
+  rewrite IH, hp_item_step_length. cbn [items_count]. lia.
+Qed.
+
+Lemma hp_items_count_ge : forall items, (length items <= items_count items)%nat.
+Proof.
+  induction items as [|it r IH]; [cbn; lia|].
+  cbn [length items_count]. pose proof (hp_item_count_pos it). lia.
+Qed.
+
+Lemma hp_items_ok_le18 : forall items acc, items_ok items acc ->
+  Forall (fun it => fst it <= 18) items.
+Proof.
+  induction items as [|it r IH]; intros acc H; [constructor|].
+  cbn [items_ok] in H. destruct H as [H1 H2]. constructor.
+  - exact (proj1 H1).
+  - eapply IH. exact H2.
+Qed.
+
+Lemma hp_read_lens_items : forall ct clcodes items fuel total acc rest p,
+  items_ok items acc -> Forall (item_decodes ct clcodes) items ->
+  (length items <= fuel)%nat -> (items_count items <= total)%nat ->
+  read_lens fuel ct total acc (mkbs (flat_map (item_bits clcodes) items ++ rest) p)
+  = read_lens (fuel - length items) ct (total - items_count items) (run_items items acc)
+              (mkbs rest (p + N.of_nat (length (flat_map (item_bits clcodes) items)))).
+Proof.
+  intros ct clcodes. induction items as [|it r IH]; intros fuel total acc rest p Hok Hdec Hf Ht.
+  - cbn [flat_map app length items_count run_items fold_left].
+    rewrite !Nat.sub_0_r, N.add_0_r. reflexivity.
+  - cbn [items_ok] in Hok. destruct Hok as [Hwf Hok].
+    inversion Hdec as [|it' r' Hd Hdr]; subst.
+    cbn [length items_count] in *.
+    destruct fuel as [|fuel]; [lia|].
+    cbn [flat_map]. rewrite <- app_assoc.
+    rewrite hp_read_lens_item by (try assumption; lia).
+    rewrite IH by (try assumption; lia).
+    change (run_items (it :: r) acc) with (run_items r (item_step it acc)).
+    rewrite app_length.
+    replace (S fuel - S (length r))%nat with (fuel - length r)%nat by lia.
+    replace (total - item_count it - items_count r)%nat
+      with (total - (item_count it + items_count r))%nat by lia.
+    do 2 f_equal. lia.
+Qed.
+
+(* ------------------------------------------------------------------ *)
+(* 8. the run-length coder: alphabet l expands back to l                *)
+
+Lemma hp_repeat_comm : forall A (x : A) n l, repeat x n ++ x :: l = x :: repeat x n ++ l.
+Proof.
+  intros A x. induction n as [|n IH]; intros l; [reflexivity|].
+  cbn [repeat app]. rewrite IH. reflexivity.
+Qed.
+
+Lemma hp_step_lit : forall s e acc, s < 16 -> item_step (s, e) acc = N.to_nat s :: acc.
+Proof.
+  intros s e acc Hs. unfold item_step. cbn [fst].
+  apply N.ltb_lt in Hs. rewrite Hs. reflexivity.
+Qed.
+
+Lemma hp_wf_lit : forall s e acc, s < 16 -> item_wf (s, e) acc.
+Proof. intros s e acc Hs. unfold item_wf. cbn [fst snd]. lia. Qed.
+
+Lemma hp_step_16 : forall e acc,
+  item_step (16, e) acc = repeat (hd 0%nat acc) (3 + N.to_nat e) ++ acc.
+Proof. reflexivity. Qed.
+Lemma hp_step_17 : forall e acc, item_step (17, e) acc = repeat 0%nat (3 + N.to_nat e) ++ acc.
+Proof. reflexivity. Qed.
+Lemma hp_step_18 : forall e acc, item_step (18, e) acc = repeat 0%nat (11 + N.to_nat e) ++ acc.
+Proof. reflexivity. Qed.
+
+Lemma hp_run_cons : forall it r acc, run_items (it :: r) acc = run_items r (item_step it acc).
+Proof. reflexivity. Qed.
+
+Lemma hp_lits : forall s n acc, s < 16 ->
+  items_ok (repeat (s, 0) n) acc /\
+  run_items (repeat (s, 0) n) acc = repeat (N.to_nat s) n ++ acc.
+Proof.
+  intros s n. induction n as [|n IH]; intros acc Hs.
+  - split; [exact I | reflexivity].
+  - cbn [repeat items_ok]. rewrite hp_run_cons, hp_step_lit by exact Hs.
+    destruct (IH (N.to_nat s :: acc) Hs) as [H1 H2].
+    split; [split; [apply hp_wf_lit; exact Hs | exact H1]|].
+    rewrite H2. rewrite hp_repeat_comm. reflexivity.
+Qed.
+
+Lemma hp_num_repeat : forall fuel num k acc, num < 16 -> k <= 7 * N.of_nat fuel ->
+  items_ok (num_repeat fuel num k) acc /\
+  run_items (num_repeat fuel num k) acc = repeat (N.to_nat num) (N.to_nat k) ++ acc.
+Proof.
+  induction fuel as [|f IH]; intros num k acc Hn Hk.
+  - replace k with 0 by lia. split; [exact I | reflexivity].
+  - cbn [num_repeat].
+    destruct (k =? 0) eqn:E0.
+    { apply N.eqb_eq in E0. subst k. split; [exact I | reflexivity]. }
+    apply N.eqb_neq in E0.
+    destruct (k <=? 3) eqn:E3.
+    { apply hp_lits. exact Hn. }
+    apply N.leb_gt in E3.
+    destruct (k <=? 7) eqn:E7.
+    { apply N.leb_le in E7. cbn [items_ok].
+      rewrite !hp_run_cons, hp_step_lit, hp_step_16 by exact Hn. cbn [hd].
+      split.
+      - split; [apply hp_wf_lit; exact Hn|]. split; [|exact I].
+        unfold item_wf. cbn [fst snd]. repeat split; try lia. congruence.
+      - cbn [run_items fold_left]. rewrite hp_repeat_comm.
+        replace (N.to_nat k) with (S (3 + N.to_nat (k - 4))) by lia. reflexivity. }
+    apply N.leb_gt in E7. cbn [items_ok].
+    rewrite !hp_run_cons, hp_step_lit, hp_step_16 by exact Hn. cbn [hd].
+    destruct (IH num (k - 7) (repeat (N.to_nat num) (3 + N.to_nat 3) ++ N.to_nat num :: acc) Hn) as [H1 H2];
+      [lia|].
+    split.
+    + split; [apply hp_wf_lit; exact Hn|]. split; [|exact H1].
+      unfold item_wf. cbn [fst snd]. repeat split; try lia. congruence.
+    + rewrite H2. rewrite hp_repeat_comm.
+      change (N.to_nat num :: repeat (N.to_nat num) (3 + N.to_nat 3) ++ acc)
+        with (repeat (N.to_nat num) 7 ++ acc).
+      rewrite app_assoc, <- repeat_app. f_equal. f_equal. lia.
+Qed.
+
+Lemma hp_zero_repeat : forall fuel k acc, k <= 138 * N.of_nat fuel ->
+  items_ok (zero_repeat fuel k) acc /\
+  run_items (zero_repeat fuel k) acc = repeat 0%nat (N.to_nat k) ++ acc.
+Proof.
+  induction fuel as [|f IH]; intros k acc Hk.
+  - replace k with 0 by lia. split; [exact I | reflexivity].
+  - cbn [zero_repeat].
+    destruct (k =? 0) eqn:E0.
+    { apply N.eqb_eq in E0. subst k. split; [exact I | reflexivity]. }
+    apply N.eqb_neq in E0.
+    destruct (k <? 3) eqn:E3.
+    { apply (hp_lits 0). lia. }
+    apply N.ltb_ge in E3.
+    destruct (k <? 11) eqn:E11.
+    { apply N.ltb_lt in E11. cbn [items_ok]. rewrite hp_run_cons, hp_step_17.
+      split.
+      - split; [|exact I]. unfold item_wf. cbn [fst snd]. repeat split; try lia; intros; try lia; try discriminate.
+      - cbn [run_items fold_left]. f_equal. f_equal. lia. }
+    apply N.ltb_ge in E11.
+    destruct (k <? 139) eqn:E139.
+    { apply N.ltb_lt in E139. cbn [items_ok]. rewrite hp_run_cons, hp_step_18.
+      split.
+      - split; [|exact I]. unfold item_wf. cbn [fst snd]. repeat split; try lia; intros; try lia; try discriminate.
+      - cbn [run_items fold_left]. f_equal. f_equal. lia. }
+    apply N.ltb_ge in E139. cbn [items_ok]. rewrite hp_run_cons, hp_step_18.
+    destruct (IH (k - 138) (repeat 0%nat (11 + N.to_nat 127) ++ acc)) as [H1 H2]; [lia|].
+    split.
+    + split; [|exact H1]. unfold item_wf. cbn [fst snd]. repeat split; try lia; intros; try lia; try discriminate.
+    + rewrite H2. rewrite app_assoc, <- repeat_app. f_equal. f_equal. lia.
+Qed.
+
+Definition emit_run (prev run : N) : list (N * N) :=
+  if prev =? 0 then zero_repeat 64 run else num_repeat 64 prev run.
+
+Lemma hp_emit_run : forall prev run acc, prev < 16 -> run <= 448 ->
+  items_ok (emit_run prev run) acc /\
+  run_items (emit_run prev run) acc = repeat (N.to_nat prev) (N.to_nat run) ++ acc.
+Proof.
+  intros prev run acc Hp Hr. unfold emit_run.
+  destruct (prev =? 0) eqn:E.
+  - apply N.eqb_eq in E. subst prev. apply hp_zero_repeat. lia.
+  - apply hp_num_repeat; [exact Hp | lia].
+Qed.
+
+Lemma hp_rle_runs : forall l prev run acc, prev < 16 -> Forall (fun x => x <= 15) l ->
+  run + N.of_nat (length l) <= 448 ->
+  items_ok (rle_runs l prev run) acc /\
+  run_items (rle_runs l prev run) acc
+  = rev (map N.to_nat l) ++ repeat (N.to_nat prev) (N.to_nat run) ++ acc.
+Proof.
+  induction l as [|x r IH]; intros prev run acc Hp Hl Hr.
+  - cbn [rle_runs map rev app]. apply hp_emit_run; [exact Hp | cbn [length] in Hr; lia].
+  - inversion Hl as [|x' r' Hx Hlr]; subst. cbn [length] in Hr.
+    cbn [rle_runs]. fold (emit_run prev run).
+    destruct (x =? prev) eqn:E.
+    + apply N.eqb_eq in E. subst x.
+      destruct (IH prev (run + 1) acc Hp Hlr) as [H1 H2]; [lia|].
+      split; [exact H1|]. rewrite H2. cbn [map rev]. rewrite <- app_assoc. f_equal.
+      replace (N.to_nat (run + 1)) with (S (N.to_nat run)) by lia. reflexivity.
+    + destruct (hp_emit_run prev run acc Hp) as [H1 H2]; [lia|].
+      destruct (IH x 1 (repeat (N.to_nat prev) (N.to_nat run) ++ acc)) as [H3 H4]; [lia|exact Hlr|lia|].
+      split.
+      * apply hp_items_ok_app; [exact H1|]. rewrite H2. exact H3.
+      * rewrite hp_run_items_app, H2, H4. cbn [map rev]. rewrite <- app_assoc. reflexivity.
+Qed.
+
+Lemma hp_alphabet : forall l acc, Forall (fun x => x <= 15) l -> (length l <= 448)%nat ->
+  items_ok (alphabet l) acc /\ run_items (alphabet l) acc = rev (map N.to_nat l) ++ acc.
+Proof.
+  intros l acc Hl Hn. destruct l as [|x r].
+  - split; [exact I | reflexivity].
+  - inversion Hl as [|x' r' Hx Hlr]; subst. cbn [length] in Hn. cbn [alphabet].
+    destruct (hp_rle_runs r x 1 acc) as [H1 H2]; [lia | exact Hlr | lia |].
+    split; [exact H1|]. rewrite H2. cbn [map rev]. rewrite <- app_assoc. reflexivity.
 Qed.
